@@ -192,7 +192,7 @@ func (s *Sched) Point(site string, args []any) error {
 	if err != nil {
 		return err
 	}
-	s.Yield(site)
+	s.parkG(g, site, "")
 	return nil
 }
 
@@ -209,7 +209,10 @@ func (s *Sched) ParkBlocked(reason string) {
 }
 
 func (s *Sched) park(label, blocked string) {
-	g := curGoid()
+	s.parkG(curGoid(), label, blocked)
+}
+
+func (s *Sched) parkG(g int64, label, blocked string) {
 	if g == s.rootGoid {
 		if blocked != "" {
 			panic("sim: scheduler goroutine would block on " + blocked)
